@@ -1,14 +1,192 @@
-(* C28 — thread-safe components are race free and linearizable (first stage: the regenerated table). *)
+(* C28 — Thread-safe components are race free and linearizable.
+
+   Part 1 (generic, proved once, all objects / all traces): an object whose operations run their body
+   inside one critical section of its mutex — exclusive for mutators, shared only for read-only
+   operations, no lock only for operations that do not touch the guarded state — refines the atomic
+   object; every history is linearizable (Herlihy–Wing) and no data race is reachable.  The mutex
+   semantics (sync.Mutex / sync.RWMutex) is the well-formedness condition of traces, not proved.
+   Part 2 (regenerated from the Go source on every run): gen/LockTable.v, produced by
+   harness/cmd/lockscan; the two [vm_compute] theorems below are statements about THAT table, and
+   [C28_components_linearizable] instantiates the premise of part 1 with it. *)
 From Coq Require Import String List NArith Bool.
-From LV Require Import model.LockDiscipline gen.LockTable.
+From LV Require Import model.LockDiscipline model.Lin proofs.LinSim proofs.LinHW proofs.LinHB proofs.Lin proofs.LinTable gen.LockTable.
 Import ListNotations.
 Local Open Scope string_scope.
 
+(* ------------------------------------------------------------------ part 1: generic theorems *)
+Theorem C28_locked_refines_atomic :
+  forall (state op ret local : Type) (linit : op -> local) (mstep : op -> local -> state -> local * state)
+         (fin : op -> local -> option ret) (kind : op -> lkind) (s0 : state),
+    shared_readonly state op local mstep kind -> none_stateless state op local mstep kind ->
+    forall tr c, exec state op ret local linit mstep fin kind s0 tr c ->
+    exists atr a, aexec state op ret local linit mstep fin s0 atr a /\ ahist op ret atr = hist op ret tr.
+Proof. exact locked_refines_atomic. Qed.
+
+Theorem C28_locked_atomic_linearizable :
+  forall (state op ret local : Type) (linit : op -> local) (mstep : op -> local -> state -> local * state)
+         (fin : op -> local -> option ret) (kind : op -> lkind) (s0 : state),
+    shared_readonly state op local mstep kind -> none_stateless state op local mstep kind ->
+    forall tr c, exec state op ret local linit mstep fin kind s0 tr c ->
+    linearizable state op ret local linit mstep fin s0 (hist op ret tr).
+Proof. exact locked_atomic_linearizable. Qed.
+
+Theorem C28_locked_race_free :
+  forall (state op ret local : Type) (linit : op -> local) (mstep : op -> local -> state -> local * state)
+         (fin : op -> local -> option ret) (kind : op -> lkind) (s0 : state),
+    shared_readonly state op local mstep kind -> none_stateless state op local mstep kind ->
+    forall tr c, exec state op ret local linit mstep fin kind s0 tr c -> ~ race state op ret local fin kind c.
+Proof. exact locked_race_free. Qed.
+
+(* conflicting accesses are ordered by the lock: between an access of t inside its critical section and a
+   later access of t' inside its own, one of the two sections being exclusive, t releases the mutex and
+   afterwards t' acquires it (program order ; release/acquire ; program order) *)
+Theorem C28_conflicting_accesses_ordered :
+  forall (state op ret local : Type) (linit : op -> local) (mstep : op -> local -> state -> local * state)
+         (fin : op -> local -> option ret) (kind : op -> lkind) (s0 : state),
+    shared_readonly state op local mstep kind -> none_stateless state op local mstep kind ->
+    forall pre c0 c1 mid c2 t t' o l o' l',
+      exec state op ret local linit mstep fin kind s0 pre c0 ->
+      th _ _ _ _ c0 t = InCS _ _ _ o l -> step state op ret local linit mstep fin kind c0 (Body op ret t) c1 ->
+      run state op ret local linit mstep fin kind c1 mid c2 -> th _ _ _ _ c2 t' = InCS _ _ _ o' l' ->
+      t <> t' -> kind o = KExcl \/ kind o' = KExcl ->
+      exists m1 m2 m3, mid = (m1 ++ Rel op ret t :: m2 ++ Acq op ret t' :: m3)%list.
+Proof. exact conflicts_ordered. Qed.
+
+(* every trace of the atomic object is linearizable (the second half of the argument, on its own) *)
+Theorem C28_atomic_linearizable :
+  forall (state op ret local : Type) (linit : op -> local) (mstep : op -> local -> state -> local * state)
+         (fin : op -> local -> option ret) (s0 : state) atr a,
+    aexec state op ret local linit mstep fin s0 atr a ->
+    linearizable state op ret local linit mstep fin s0 (ahist op ret atr).
+Proof. exact atomic_linearizable. Qed.
+
+(* the premise cannot be dropped: a reader that takes no lock, between the two steps of a writer *)
+Theorem C28_unlocked_read_not_linearizable :
+  (exists c, exec nat Counter.cop nat (nat * nat) Counter.clinit Counter.cmstep Counter.cfin Counter.kind_bad 0
+                  Counter.bad_trace c) /\
+  ~ linearizable nat Counter.cop nat (nat * nat) Counter.clinit Counter.cmstep Counter.cfin 0 Counter.bad_history.
+Proof. split; [exact Counter.bad_trace_exec | exact Counter.unlocked_read_not_linearizable]. Qed.
+
+(* non-vacuity of part 1: the premises hold for a concrete object and readers really overlap *)
+Example C28_premises_satisfiable :
+  shared_readonly nat Counter.cop (nat * nat) Counter.cmstep Counter.kind_ok /\
+  none_stateless nat Counter.cop (nat * nat) Counter.cmstep Counter.kind_ok /\
+  exists tr c, exec nat Counter.cop nat (nat * nat) Counter.clinit Counter.cmstep Counter.cfin Counter.kind_ok 0 tr c /\
+    (exists o l, th _ _ _ _ c 1 = InCS _ _ _ o l) /\ (exists o l, th _ _ _ _ c 2 = InCS _ _ _ o l).
+Proof. split; [exact Counter.ok_shared | split; [exact Counter.ok_none | exact Counter.readers_overlap]]. Qed.
+
+(* ------------------------------------------------------------------ part 2: the regenerated table *)
+(* recorded finding (checks/C28.findings.json, status "known"): EventsBuffer.IsBuffered / Total *)
 Definition known_unlocked : list (string * string) :=
   [("EventsBuffer", "IsBuffered"); ("EventsBuffer", "Total")].
 
-Theorem C28_lock_table_ok :
-  forallb method_ok (filter (fun r => negb (row_in known_unlocked r)) lock_table) = true.
+Definition checked_table : list lock_row :=
+  filter (fun r => negb (row_in known_unlocked r)) lock_table.
+
+(* every row of the table regenerated from the source satisfies the lock discipline *)
+Theorem C28_lock_table_ok : forallb method_ok checked_table = true.
 Proof. vm_compute. reflexivity. Qed.
 
+(* ... and the rows that do not are exactly the two recorded accessors: they read the guarded LRU of the
+   buffer without the buffer's mutex (the model of the code as it is violates the discipline there) *)
+Theorem C28_eventsbuffer_unlocked_reads_refuted :
+  map row_key (filter (fun r => negb (method_ok r)) lock_table) = known_unlocked.
+Proof. vm_compute. reflexivity. Qed.
+
+(* the instance: any object whose operations are methods with a row in the checked table *)
+Theorem C28_components_linearizable :
+  forall (state op ret local : Type) (linit : op -> local) (mstep : op -> local -> state -> local * state)
+         (fin : op -> local -> option ret) (s0 : state) (row_of : op -> lock_row),
+    (forall o, In (row_of o) checked_table) ->
+    (forall o, r_quiescent (row_of o) = false) ->
+    (forall o, r_writes (row_of o) = 0%N -> forall l s, snd (mstep o l s) = s) ->
+    (forall o, accesses (row_of o) = 0%N -> forall l s s', mstep o l s = (fst (mstep o l s'), s)) ->
+    forall tr c, exec state op ret local linit mstep fin (kind_of_op op row_of) s0 tr c ->
+    linearizable state op ret local linit mstep fin s0 (hist op ret tr).
+Proof.
+  exact (fun st op rt lc li ms fi s0 ro => table_linearizable st op rt lc li ms fi s0 checked_table ro C28_lock_table_ok).
+Qed.
+
+Theorem C28_components_race_free :
+  forall (state op ret local : Type) (linit : op -> local) (mstep : op -> local -> state -> local * state)
+         (fin : op -> local -> option ret) (s0 : state) (row_of : op -> lock_row),
+    (forall o, In (row_of o) checked_table) ->
+    (forall o, r_quiescent (row_of o) = false) ->
+    (forall o, r_writes (row_of o) = 0%N -> forall l s, snd (mstep o l s) = s) ->
+    (forall o, accesses (row_of o) = 0%N -> forall l s s', mstep o l s = (fst (mstep o l s'), s)) ->
+    forall tr c, exec state op ret local linit mstep fin (kind_of_op op row_of) s0 tr c ->
+    ~ race state op ret local fin (kind_of_op op row_of) c.
+Proof.
+  exact (fun st op rt lc li ms fi s0 ro => table_race_free st op rt lc li ms fi s0 checked_table ro C28_lock_table_ok).
+Qed.
+
+(* non-vacuity of the instance: the counter object with Incr2 := the row of wlru.Cache.Add and
+   Read := the row of wlru.Cache.Len satisfies every hypothesis, with the kinds the code really uses *)
+Definition dummy_row : lock_row := mk_row "" "" false "" "" LNone 0 0 0 0 0 0 false false true.
+Definition row_or (t m : string) : lock_row :=
+  match find_row checked_table t m with Some r => r | None => dummy_row end.
+Definition counter_row (o : Counter.cop) : lock_row :=
+  match o with Counter.OIncr2 => row_or "Cache" "Add" | Counter.ORead => row_or "Cache" "Len" end.
+
+Example C28_instance_nonvacuous :
+  (forall o, In (counter_row o) checked_table) /\
+  (forall o, r_quiescent (counter_row o) = false) /\
+  (forall o, r_writes (counter_row o) = 0%N -> forall l s, snd (Counter.cmstep o l s) = s) /\
+  (forall o, accesses (counter_row o) = 0%N ->
+     forall l s s', Counter.cmstep o l s = (fst (Counter.cmstep o l s'), s)) /\
+  kind_of_op Counter.cop counter_row Counter.OIncr2 = KExcl /\
+  kind_of_op Counter.cop counter_row Counter.ORead = KShared.
+Proof.
+  split; [|split; [|split; [|split; [|split]]]].
+  - intros []; [apply (find_row_in checked_table "Cache" "Add") | apply (find_row_in checked_table "Cache" "Len")];
+      vm_compute; reflexivity.
+  - intros []; vm_compute; reflexivity.
+  - intros [] H l s; [vm_compute in H; discriminate | reflexivity].
+  - intros [] H; vm_compute in H; discriminate.
+  - vm_compute; reflexivity.
+  - vm_compute; reflexivity.
+Qed.
+
+(* the table covers the public operations of the five components (a method that disappears from the table,
+   e.g. because the translator no longer finds the file, breaks this) *)
+Definition expected_methods : list (string * string) :=
+  [ ("Flushable","Put"); ("Flushable","Delete"); ("Flushable","DropNotFlushed"); ("Flushable","Close");
+    ("Flushable","Drop"); ("Flushable","Flush"); ("Flushable","NotFlushedPairs"); ("Flushable","NotFlushedSizeEst");
+    ("Flushable","Stat"); ("Flushable","Compact"); ("Flushable","GetSnapshot"); ("Flushable","NewBatch");
+    ("flushableReader","Has"); ("flushableReader","Get"); ("flushableReader","NewIterator");
+    ("LazyFlushable","InitUnderlyingDb"); ("LazyFlushable","Flush"); ("Snapshot","Release");
+    ("SyncedPool","Initialize"); ("SyncedPool","OpenDB"); ("SyncedPool","GetUnderlying"); ("SyncedPool","Flush");
+    ("SyncedPool","NotFlushedSizeEst"); ("SyncedPool","Names"); ("SyncedPool","Close");
+    ("Cache","Purge"); ("Cache","Add"); ("Cache","Get"); ("Cache","Contains"); ("Cache","Peek");
+    ("Cache","ContainsOrAdd"); ("Cache","PeekOrAdd"); ("Cache","Remove"); ("Cache","Resize");
+    ("Cache","RemoveOldest"); ("Cache","GetOldest"); ("Cache","Keys"); ("Cache","Len"); ("Cache","Weight"); ("Cache","Total");
+    ("DataSemaphore","Acquire"); ("DataSemaphore","TryAcquire"); ("DataSemaphore","Release");
+    ("DataSemaphore","Terminate"); ("DataSemaphore","Processing"); ("DataSemaphore","Available");
+    ("EventsBuffer","PushEvent"); ("EventsBuffer","Clear"); ("EventsBuffer","IsBuffered"); ("EventsBuffer","Total") ].
+
+Example C28_table_covers_api :
+  forallb (fun k => existsb (fun r => key_eqb (row_key r) k && r_exported r && is_self r) lock_table)
+          expected_methods = true.
+Proof. vm_compute. reflexivity. Qed.
+
+(* spot checks of what the translator reports for the repaired code *)
+Example C28_table_spot_checks :
+  option_map (fun r => (r_mode r, N.ltb 0 (r_writes r))) (find_row lock_table "Flushable" "Put") = Some (LExcl, true) /\
+  option_map (fun r => (r_mode r, r_writes r)) (find_row lock_table "flushableReader" "Get") = Some (LShared, 0%N) /\
+  option_map (fun r => (r_mode r, r_writes r, r_unlocked_reads r)) (find_row lock_table "Flushable" "NotFlushedPairs")
+    = Some (LShared, 0%N, 0%N) /\
+  option_map (fun r => (r_mode r, N.ltb 0 (r_writes r))) (find_row lock_table "Cache" "Get") = Some (LExcl, true) /\
+  option_map (fun r => (r_mode r, r_condwait r)) (find_row lock_table "DataSemaphore" "Acquire") = Some (LExcl, true) /\
+  option_map (fun r => (r_mode r, r_unlocked_reads r)) (find_row lock_table "EventsBuffer" "Total") = Some (LNone, 1%N).
+Proof. vm_compute. repeat split; reflexivity. Qed.
+
+Print Assumptions C28_locked_refines_atomic.
+Print Assumptions C28_locked_atomic_linearizable.
+Print Assumptions C28_locked_race_free.
+Print Assumptions C28_conflicting_accesses_ordered.
+Print Assumptions C28_atomic_linearizable.
+Print Assumptions C28_unlocked_read_not_linearizable.
 Print Assumptions C28_lock_table_ok.
+Print Assumptions C28_eventsbuffer_unlocked_reads_refuted.
+Print Assumptions C28_components_linearizable.
+Print Assumptions C28_components_race_free.
